@@ -343,8 +343,49 @@ def _cons(ver):
     return wild.constraints(ver == '11', with_qname=(ver == '11'))
 
 
-def shards(tier, seed):
+ALL_NS = ['urn:a', 'urn:b', '##other', '##targetNamespace', 'urn:a urn:b', '##local', '##any', 'urn:b ##local']
+ALL_PROBE_NS = ['urn:a', 'urn:b', 'urn:t', 'urn:fresh', '']
+
+
+def check_all_group_operands(st):
+    """XSD 1.1: the wildcards of an xs:all base keep their meaning when some type restricts that base (the restriction
+    check combines the base's wildcards): verdicts of the base with and without a derived type in the schema."""
     out = []
+
+    def xsd(c1, c2, derived):
+        base = ('<xs:complexType name="AB"><xs:all><xs:any namespace="%s" processContents="lax" minOccurs="0"/>'
+                '<xs:any namespace="%s" processContents="lax" minOccurs="0"/></xs:all></xs:complexType>' % (c1, c2))
+        der = ('<xs:complexType name="AR"><xs:complexContent><xs:restriction base="t:AB"><xs:all><xs:any namespace="%s" '
+               'processContents="lax" minOccurs="0"/></xs:all></xs:restriction></xs:complexContent></xs:complexType>' % c1)
+        return ('<xs:schema xmlns:xs="%s" xmlns:t="urn:t" targetNamespace="urn:t">%s%s<xs:element name="eb" type="t:AB"/>'
+                '</xs:schema>' % (XS, base, der if derived else ''))
+
+    def kids(nss):
+        return ''.join(('<x:k%d xmlns:x="%s"/>' % (i, ns)) if ns else '<k%d xmlns=""/>' % i for i, ns in enumerate(nss))
+    docs = [kids(c) for n in (1, 2) for c in itertools.product(ALL_PROBE_NS, repeat=n)]
+    for c1, c2 in itertools.product(ALL_NS, repeat=2):
+        try:
+            s1 = xmlschema.XMLSchema11(xsd(c1, c2, False))
+            s2 = xmlschema.XMLSchema11(xsd(c1, c2, True))
+        except xmlschema.XMLSchemaException:
+            st.cls('all_group_pair_rejected')       # overlapping wildcards in xs:all, or the restriction refused
+            continue
+        st.cls('all_group_pair_built')
+        st.case()
+        st.nt(('all_group', c1, c2))
+        for d in docs:
+            doc = '<t:eb xmlns:t="urn:t">%s</t:eb>' % d
+            v1, v2 = s1.is_valid(doc), s2.is_valid(doc)
+            if v1 != v2:
+                out.append({'kind': 'operand_changed_by_restriction_check', 'input': {'ver': '11', 'c1': c1, 'c2': c2, 'doc': doc},
+                            'expected': 'the base type judges the document alike with and without a derived type: %s' % v1,
+                            'observed': v2, 'classes': [], 'key': 'allgroup|%s|%s' % (c1, c2)})
+                break
+    return out
+
+
+def shards(tier, seed):
+    out = [('allgroup', '11')]
     for ver in ('10', '11'):
         cons = _cons(ver)
         n = len(cons)
@@ -369,6 +410,12 @@ def run_shard(desc):
     cons = _cons(ver)
     n = len(cons)
     recs = []
+    if kind == 'allgroup':
+        recs = check_all_group_operands(st)
+        st.sample({'op': 'xs:all base with two wildcards, with / without a restricting type', 'namespaces': ALL_NS})
+        for r in recs:
+            core.report(st, PROPERTY, r)
+        return st
     if kind == 'single':
         for wk in ('attr', 'elem'):
             recs += check_single(ver, wk, cons, st)
@@ -403,9 +450,11 @@ def finalize(total, tier, seed):
 def replay(record):
     st = core.Stats()
     inp = record['input']
+    kind = record['kind']
+    if kind == 'operand_changed_by_restriction_check':
+        return [r for r in check_all_group_operands(st) if r['key'] == record.get('key')]
     ver, wk = inp['ver'], inp['wk']
     cs = [tuple(c) for c in inp['cons']]
-    kind = record['kind']
     if kind.startswith('member'):
         recs = check_single(ver, wk, cs, st)
     elif kind.endswith('_obj'):
